@@ -844,6 +844,38 @@ def large_logprob_oracle(ctx, uo):
                           observed=err, broken="oracle: batched element == unbatched call (batches above 2**15 elements)")
 
 
+def deep_condition_sampling_oracle(ctx, uo):
+    """sample / sample_and_log_prob with a condition that has THREE or four leading batch axes (and a sample_shape on top): one independent
+    draw per output element.  With an additive condition the base noise is the sample minus the shift, so repeated noise is visible as
+    repeated values.  (Seeded change C06i sized the key array from the last two batch axes of the condition only.)"""
+    import jax.numpy as jnp
+    import jax.random as jr
+    from flowjax.bijections import AdditiveCondition
+    from flowjax.distributions import Normal, Transformed
+
+    d = Transformed(Normal(jnp.zeros(2)), AdditiveCondition(lambda c: jnp.stack([c.sum(), c[0]]), (2,), (2,)))
+    r = ctx.rng
+    for cb, ss in (((3, 4, 5), ()), ((2, 3, 2, 2), ()), ((3, 2, 4), (2,)), ((2, 1, 3), (3, 2))):
+        C = r.normal(0, 1, (*cb, 2))
+        key = jr.PRNGKey(int(r.integers(0, 2**31 - 1)))
+        for meth in ("sample", "sample_and_log_prob"):
+            out = d.sample(key, ss, condition=jnp.asarray(C)) if meth == "sample" else d.sample_and_log_prob(key, ss, condition=jnp.asarray(C))[0]
+            out = np.asarray(out, dtype=float)
+            uo.count(("deep-condition", cb, ss, meth), nontrivial=True, tag="deep-condition-sampling")
+            exp_shape = (*ss, *cb, 2)
+            err = None
+            if out.shape != exp_shape:
+                err = f"shape {out.shape} instead of sample_shape + condition batch + event = {exp_shape}"
+            else:
+                noise = out - np.stack([C.sum(-1), C[..., 0]], axis=-1)
+                nd = len(np.unique(np.round(noise.ravel(), 12)))
+                if nd != noise.size:
+                    err = f"only {nd} distinct base draws among {noise.size} output coordinates (elements share a key)"
+            if err:
+                ctx.violation(sig=f"deep-condition:{meth}", what=f"{meth}(key, {ss}, condition batch {cb}): {err}", case=dict(unit="deep-condition", cond_batch=list(cb), sample_shape=list(ss), method=meth),
+                              found_input=True, unit=uo.name, expected="one independent draw per element", observed=err, broken="oracle (one key per output element) / C06_keys_never_shared")
+
+
 def deep_batch_oracle(ctx, uo):
     """Batch ranks 4 and 5 with a condition batch that broadcasts through size-one axes and has fewer leading axes than x: element
     I of log_prob equals the unbatched call on (x[I], condition[projected I]) (NumPy rule).  Sampled indices.  (Seeded change C06e.)"""
@@ -957,6 +989,7 @@ def run(ctx):
     deep_batch_oracle(ctx, uo)
     empty_batch_oracle(ctx, uo)
     large_logprob_oracle(ctx, uo)
+    deep_condition_sampling_oracle(ctx, uo)
 
 
 def replay(ctx, rep):
@@ -964,7 +997,7 @@ def replay(ctx, rep):
     if "spec" in c or "obligation" in c or "traceback" in c:
         print("not an input replay (spec/obligation): rebuild and re-run the check", c)
         return False
-    oracles = {"large-batch": large_batch_oracle, "support-edge": support_edge_oracle, "deep-batch": deep_batch_oracle, "empty-batch": empty_batch_oracle, "large-logprob": large_logprob_oracle}
+    oracles = {"large-batch": large_batch_oracle, "support-edge": support_edge_oracle, "deep-batch": deep_batch_oracle, "empty-batch": empty_batch_oracle, "large-logprob": large_logprob_oracle, "deep-condition": deep_condition_sampling_oracle}
     if c.get("unit") in oracles:  # model-free oracle units: re-run the unit (same seed) and look for the same signature
         import numpy as _np
 
